@@ -277,12 +277,38 @@ func (c *updater) setAuthExternal(config ConfigValueGetter, auth *hatypes.AuthEx
 func (c *updater) buildBackendAuthExternal(d *backData) {
 	for _, path := range d.backend.Paths {
 		config := d.mapper.GetConfig(path.Link)
-		isBackend := config.Get(ingtypes.BackAuthExternalPlacement).ToLower() == "backend"
 		url := config.Get(ingtypes.BackAuthURL)
-		if isBackend && url.Value != "" {
+		if url.Value == "" {
+			continue
+		}
+		placement := config.Get(ingtypes.BackAuthExternalPlacement)
+		switch placement.ToLower() {
+		case "frontend":
+			// The frontend is configured once per hostname. A conflicting auth-url or
+			// placement in the same hostname, or a declaration that cannot reach the
+			// host (e.g. service annotations), leaves this path without its rules:
+			// deny the requests instead of serving them without authentication.
+			if !c.hasFrontendAuthExternal(path.Link) {
+				c.logger.Warn("denying requests to path '%s' on %v: external authentication was not configured in the frontend, "+
+					"look for a conflicting auth-url or auth-external-placement in the same hostname", path.Path(), url.Source)
+				path.AuthExternal.AlwaysDeny = true
+			}
+		case "backend":
+			c.setAuthExternal(config, &path.AuthExternal, url)
+		default:
+			c.logger.Warn("invalid external authentication placement '%s' on %v, using 'backend' instead", placement.Value, placement.Source)
 			c.setAuthExternal(config, &path.AuthExternal, url)
 		}
 	}
+}
+
+func (c *updater) hasFrontendAuthExternal(link *hatypes.PathLink) bool {
+	host := c.haproxy.Hosts().FindHost(link.Hostname())
+	if host == nil {
+		return false
+	}
+	path := host.FindPathWithLink(link)
+	return path != nil && path.AuthExt != nil
 }
 
 func (c *updater) buildBackendAuthHTTP(d *backData) {
